@@ -1,6 +1,6 @@
 (* Obligations tying the ordered early-return guards of the settlement message server
    (x/settlement/keeper/msg_server.go, translated) to the acceptance conditions of the model's [handle]. *)
-From Settlus Require Import Base.Prelude Base.Hex Base.Dec Base.GoSem Settlement.Model.
+From Settlus Require Import Base.Prelude Base.Hex Base.Dec Base.GoSem Settlement.Model Proofs.SettlementEnd.
 From Coq Require Import Psatz.
 Require Import Translated.
 
@@ -109,4 +109,20 @@ Theorem GetRecipients_tie s chain contract tok :
 Proof.
   unfold get_recipients, GetRecipients_by_oracle, GetRecipients_refused.
   destruct (mem_bytes chain (s_supported s)); destruct (bytes_eqb (s_chain s) chain); reflexivity.
+Qed.
+
+(* the single recipient a record gets - from the NFT contract on this chain, or from the oracle's consensus - has
+   weight 1: the safety invariant of C06 (amount * weight stays below 2^256) and the payout split rest on it *)
+(* TIE: GetRecipients_weight SetRecipients_weight *)
+Theorem Recipient_weight_tie :
+  (forall s chain contract tok rs r, get_recipients s chain contract tok = Ok rs -> In r rs -> r_weight r = GetRecipients_weight) /\
+  (forall u o, map r_weight (u_recips (with_owner u o)) = [SetRecipients_weight]).
+Proof.
+  split.
+  - intros s chain contract tok rs r H Hin. unfold get_recipients in H.
+    destruct (mem_bytes chain (s_supported s) && negb (bytes_eqb (s_chain s) chain)); [inversion H; subst; destruct Hin|].
+    destruct (negb (bytes_eqb (s_chain s) chain)); [discriminate|].
+    destruct (owner_get _ _ _) as [o|]; [|discriminate]. destruct (o =? 0); [discriminate|].
+    inversion H; subst. destruct Hin as [<-|[]]. reflexivity.
+  - intros u o. reflexivity.
 Qed.
